@@ -60,7 +60,7 @@ pub fn split(ctx: &mut Ctx) {
                 if a_real > max { ctx.violation("C04", "first part of EntryPart::split exceeds max_bytes_len", json!({"chunks":wire(&cs),"max":max,"first":a_real})); }
                 let mut joined = a.clone();
                 if let Some((b, _)) = &b { joined.extend(b.iter().cloned()); }
-                if merged(&joined) != merged(&cs) { ctx.violation("C04", "EntryPart::split lost or reordered data", json!({"chunks":wire(&cs),"max":max})); ctx.violation("C03", "cutting a data chunk changed the chunk types or the concatenation of the data payloads (what is decoded then depends on the cut)", json!({"chunks":wire(&cs),"max":max})); }
+                if merged(&joined) != merged(&cs) { ctx.violation("C04", "EntryPart::split lost or reordered data", json!({"chunks":wire(&cs),"max":max})); ctx.violation("C13", "splitting — a copy without decoding — changed the chunk sequence beyond cutting data chunks (a chunk it does not understand was cut or dropped)", json!({"chunks":wire(&cs),"max":max})); ctx.violation("C03", "cutting a data chunk changed the chunk types or the concatenation of the data payloads (what is decoded then depends on the cut)", json!({"chunks":wire(&cs),"max":max})); }
                 format!("ok {} {} {}", list_digest(&a), al, match &b { None => "none".to_string(), Some((b, bl)) => format!("{} {}", list_digest(b), bl) })
             }
         };
